@@ -14,6 +14,8 @@ import (
 	"net"
 	"os"
 	"path/filepath"
+	"runtime"
+	"strings"
 	"sync"
 	"sync/atomic"
 	"syscall"
@@ -35,6 +37,8 @@ type c12ConnScn struct {
 	Post        []int `json:"post"`      // requests sent PostDelayMs after the trigger
 	PostDelayMs int   `json:"post_delay_ms"`
 	Half        bool  `json:"half"` // after Pre: the first bytes of one more request, never completed
+	Bulk        int   `json:"bulk,omitempty"`          // every response of this connection carries this many extra bytes
+	ReadDelayMs int   `json:"read_delay_ms,omitempty"` // the client starts reading only this long after the trigger (-1: never)
 }
 
 type c12Scn struct {
@@ -42,7 +46,8 @@ type c12Scn struct {
 	Pool     int          `json:"pool"`      // maxroutine (0 = one goroutine per request)
 	QueueCap int          `json:"queue_cap"` // 0 = framework default
 	GraceMs  int          `json:"grace_ms"`  // gracedowntimeout
-	Signal   string       `json:"signal"`    // TERM | INT | USR2
+	Signal   string       `json:"signal"`    // TERM | INT | USR2 | DIRECT (TarsServer.Shutdown called with a context of GraceMs)
+	SmallBuf bool         `json:"small_buf,omitempty"` // 64 KB server send buffer: a multi-megabyte response blocks in Write until the client reads
 	Phase    string       `json:"phase"`     // "read": trigger once the server has read every Pre request; "sent": right after the writes
 	Late     bool         `json:"late"`      // open one more connection after the listener went down and send a request on it
 	Conns    []c12ConnScn `json:"conns"`
@@ -87,7 +92,7 @@ type c12Servant struct {
 }
 
 func (s *c12Servant) Dispatch(ctx context.Context, _ interface{}, req *requestf.RequestPacket, rsp *requestf.ResponsePacket, _ bool) error {
-	c, r, d := c12DecodePayload(req.SBuffer)
+	c, r, d, bulk := c12DecodePayload(req.SBuffer)
 	s.log.add("start", c, r)
 	if d < 0 {
 		<-s.forever
@@ -95,38 +100,43 @@ func (s *c12Servant) Dispatch(ctx context.Context, _ interface{}, req *requestf.
 		time.Sleep(time.Duration(d) * time.Millisecond)
 	}
 	s.log.add("end", c, r)
-	*rsp = requestf.ResponsePacket{IVersion: req.IVersion, CPacketType: req.CPacketType, IRequestId: req.IRequestId, SBuffer: req.SBuffer}
+	buf := req.SBuffer
+	if bulk > 0 {
+		buf = append(append([]int8{}, buf...), make([]int8, bulk)...)
+	}
+	*rsp = requestf.ResponsePacket{IVersion: req.IVersion, CPacketType: req.CPacketType, IRequestId: req.IRequestId, SBuffer: buf}
 	return nil
 }
 
-func c12Payload(c, r, d int) []int8 {
-	b := make([]byte, 12)
+func c12Payload(c, r, d, bulk int) []int8 {
+	b := make([]byte, 16)
 	binary.BigEndian.PutUint32(b[0:], uint32(c))
 	binary.BigEndian.PutUint32(b[4:], uint32(r))
 	binary.BigEndian.PutUint32(b[8:], uint32(int32(d)))
-	o := make([]int8, 12)
+	binary.BigEndian.PutUint32(b[12:], uint32(bulk))
+	o := make([]int8, 16)
 	for i := range b {
 		o[i] = int8(b[i])
 	}
 	return o
 }
 
-func c12DecodePayload(p []int8) (int, int, int) {
-	if len(p) != 12 {
-		return -1, -1, 0
+func c12DecodePayload(p []int8) (int, int, int, int) {
+	if len(p) != 16 {
+		return -1, -1, 0, 0
 	}
-	b := make([]byte, 12)
+	b := make([]byte, 16)
 	for i := range p {
 		b[i] = byte(p[i])
 	}
-	return int(binary.BigEndian.Uint32(b[0:])), int(binary.BigEndian.Uint32(b[4:])), int(int32(binary.BigEndian.Uint32(b[8:])))
+	return int(binary.BigEndian.Uint32(b[0:])), int(binary.BigEndian.Uint32(b[4:])), int(int32(binary.BigEndian.Uint32(b[8:]))), int(binary.BigEndian.Uint32(b[12:]))
 }
 
 func c12ReqID(c, r int) int32 { return int32(c*1000 + r + 1) }
 
-func c12Frame(c, r, d int) []byte {
+func c12Frame(c, r, d, bulk int) []byte {
 	req := requestf.RequestPacket{IVersion: 1, CPacketType: 0, IRequestId: c12ReqID(c, r), SServantName: c12Obj, SFuncName: "op",
-		SBuffer: c12Payload(c, r, d), ITimeout: 0, Context: map[string]string{}, Status: map[string]string{}}
+		SBuffer: c12Payload(c, r, d, bulk), ITimeout: 0, Context: map[string]string{}, Status: map[string]string{}}
 	os := codec.NewBuffer()
 	req.WriteTo(os)
 	bs := os.ToBytes()
@@ -147,8 +157,11 @@ func c12FreePort() int {
 }
 
 // c12Reader parses the server's packets on one client connection into resp / notify / eof events.
-func c12Reader(log *c12Logger, ci int, conn net.Conn, resp *int32, done chan struct{}) {
+func c12Reader(log *c12Logger, ci int, conn net.Conn, resp *int32, done chan struct{}, gate <-chan struct{}) {
 	defer close(done)
+	if gate != nil {
+		<-gate // a slow reader: nothing is read before the gate opens
+	}
 	hdr := make([]byte, 4)
 	for {
 		if _, err := io.ReadFull(conn, hdr); err != nil {
@@ -156,7 +169,7 @@ func c12Reader(log *c12Logger, ci int, conn net.Conn, resp *int32, done chan str
 			return
 		}
 		n := int(binary.BigEndian.Uint32(hdr))
-		if n < 4 || n > 1<<20 {
+		if n < 4 || n > 1<<26 {
 			log.add("eof", ci, 0)
 			return
 		}
@@ -184,6 +197,28 @@ func c12Reader(log *c12Logger, ci int, conn net.Conn, resp *int32, done chan str
 	}
 }
 
+// c12SignalReady waits until the framework's signal goroutine (grace.GraceHandler, started asynchronously by
+// tars.Run's main loop) has registered with os/signal and waits for a signal: a signal sent before that would
+// take its default action and kill the process. Decided from the goroutine dump, not from timing.
+func c12SignalReady(max time.Duration) bool {
+	dl := time.Now().Add(max)
+	buf := make([]byte, 1<<20)
+	for {
+		n := runtime.Stack(buf, true)
+		for _, g := range strings.Split(string(buf[:n]), "\n\n") {
+			if strings.Contains(g, "grace.GraceHandler") {
+				if hdr, _, _ := strings.Cut(g, "\n"); strings.Contains(hdr, "[chan receive") {
+					return true
+				}
+			}
+		}
+		if time.Now().After(dl) {
+			return false
+		}
+		time.Sleep(2 * time.Millisecond)
+	}
+}
+
 func c12ChildMain(a Args) {
 	var scn c12Scn
 	b, err := os.ReadFile(a.Replay)
@@ -208,6 +243,9 @@ func c12ChildMain(a Args) {
 	extra := ""
 	if scn.QueueCap > 0 {
 		extra = fmt.Sprintf("queuecap=%d\n", scn.QueueCap)
+	}
+	if scn.SmallBuf {
+		extra += "tcpwritebuffer=65536\n"
 	}
 	cfg := fmt.Sprintf(`<tars>
 <application>
@@ -241,10 +279,13 @@ threads=1
 	sv := &c12Servant{log: log, forever: make(chan struct{})}
 	tars.AddServantWithContext(sv, sv, c12Obj)
 	returned := make(chan struct{})
+	var returnedOnce sync.Once
 	go func() {
 		tars.Run()
-		obs.ReturnedT = log.add("returned", 0, 0)
-		close(returned)
+		returnedOnce.Do(func() {
+			obs.ReturnedT = log.add("returned", 0, 0)
+			close(returned)
+		})
 	}()
 	addr := fmt.Sprintf("127.0.0.1:%d", port)
 	ts := tars.VerifC12Server(c12Obj)
@@ -258,6 +299,7 @@ threads=1
 	keys := make([]string, len(scn.Conns))
 	resp := make([]int32, len(scn.Conns))
 	rdone := make([]chan struct{}, len(scn.Conns))
+	gates := make([]chan struct{}, len(scn.Conns))
 	deadline := time.Now().Add(8 * time.Second)
 	for i := range scn.Conns {
 		for {
@@ -278,7 +320,14 @@ threads=1
 			time.Sleep(20 * time.Millisecond)
 		}
 		rdone[i] = make(chan struct{})
-		go c12Reader(log, i, conns[i], &resp[i], rdone[i])
+		if scn.Conns[i].ReadDelayMs != 0 {
+			gates[i] = make(chan struct{})
+		}
+		var g <-chan struct{}
+		if gates[i] != nil {
+			g = gates[i]
+		}
+		go c12Reader(log, i, conns[i], &resp[i], rdone[i], g)
 	}
 	// every connection is in the server's table before anything is sent (accept + Store are asynchronous)
 	for {
@@ -306,7 +355,7 @@ threads=1
 	for i, cs := range scn.Conns {
 		var all []byte
 		for r, d := range cs.Pre {
-			f := c12Frame(i, r, d)
+			f := c12Frame(i, r, d, cs.Bulk)
 			if cs.Pipelined {
 				all = append(all, f...)
 				continue
@@ -325,7 +374,7 @@ threads=1
 			}
 		}
 		if cs.Half {
-			f := c12Frame(i, len(cs.Pre)+len(cs.Post), 0)
+			f := c12Frame(i, len(cs.Pre)+len(cs.Post), 0, 0)
 			if _, err := conns[i].Write(f[:len(f)/2]); err != nil {
 				finish("write: " + err.Error())
 			}
@@ -375,9 +424,33 @@ threads=1
 	case "USR2":
 		sig = syscall.SIGUSR2
 	}
+	if scn.Signal != "DIRECT" && !c12SignalReady(5*time.Second) {
+		finish("the framework's signal handler was not installed within 5 s")
+	}
 	obs.TriggerT = log.add("trigger", 0, 0)
 	trig := time.Now()
-	syscall.Kill(os.Getpid(), sig)
+	if scn.Signal == "DIRECT" {
+		// TarsServer.Shutdown itself, with a context of GraceMs
+		go func() {
+			ctx, cancel := context.WithTimeout(context.Background(), time.Duration(scn.GraceMs)*time.Millisecond)
+			ts.Shutdown(ctx)
+			cancel()
+			returnedOnce.Do(func() {
+				obs.ReturnedT = log.add("returned", 0, 0)
+				close(returned)
+			})
+		}()
+	} else {
+		syscall.Kill(os.Getpid(), sig)
+	}
+	for i, cs := range scn.Conns {
+		if gates[i] != nil && cs.ReadDelayMs > 0 {
+			go func(g chan struct{}, d int) {
+				time.Sleep(time.Until(trig.Add(time.Duration(d) * time.Millisecond)))
+				close(g)
+			}(gates[i], cs.ReadDelayMs)
+		}
+	}
 
 	var wg sync.WaitGroup
 	for i, cs := range scn.Conns {
@@ -391,7 +464,7 @@ threads=1
 			for k, d := range cs.Post {
 				r := len(cs.Pre) + k
 				log.add("send", i, r)
-				if _, err := conns[i].Write(c12Frame(i, r, d)); err != nil {
+				if _, err := conns[i].Write(c12Frame(i, r, d, cs.Bulk)); err != nil {
 					log.add("sendfail", i, r)
 					return
 				}
@@ -423,9 +496,9 @@ threads=1
 			lateConn = c
 			log.add("late", lateIdx, 0)
 			var n int32
-			go c12Reader(log, lateIdx, c, &n, make(chan struct{}))
+			go c12Reader(log, lateIdx, c, &n, make(chan struct{}), nil)
 			log.add("send", lateIdx, 0)
-			c.Write(c12Frame(lateIdx, 0, 0))
+			c.Write(c12Frame(lateIdx, 0, 0, 0))
 		}
 	}()
 	select {
